@@ -227,6 +227,9 @@ func (fx *FnCtx) envAt(st *State, pos token.Pos) *Env {
 		if !ok || v == cur {
 			continue
 		}
+		if os.Getenv("GOVC_SCOPEDEBUG") != "" {
+			fmt.Fprintf(os.Stderr, "SCOPE %s %s: %q is the variable in scope here, not the most recently assigned one of that name\n", fx.key, fx.pkg.Fset.Position(pos), k)
+		}
 		if named == nil {
 			named = make(map[string]Val, len(st.named))
 			for k2, v2 := range st.named {
